@@ -209,7 +209,7 @@ Definition oss_eqb (a b : option (list string)) : bool :=
   | _, _ => false
   end.
 
-(* YangType.Equal: Name and Bit are not compared ("TODO(borman): Base, Bit"); Enum is compared as the
+(* YangType.Equal: Name (and Base) are not compared; Enum and Bit are compared (enumEqual) as the
    name -> value map, which for position-numbered members is the member list; tsEqual is element-wise Equal *)
 Fixpoint yt_equal (a b : yangtype) {struct a} : bool :=
   kind_eqb (y_kind a) (y_kind b)
@@ -228,7 +228,8 @@ Fixpoint yt_equal (a b : yangtype) {struct a} : bool :=
         | x :: r1, y :: r2 => yt_equal x y && ts r1 r2
         | _, _ => false
         end) (y_union a) (y_union b)
-  && oss_eqb (y_enum a) (y_enum b).
+  && oss_eqb (y_enum a) (y_enum b)
+  && oss_eqb (y_bit a) (y_bit b).
 
 (* ------------------------------------------------------------------ typeDictionary *)
 
